@@ -13,7 +13,8 @@ Ops (one answer line each; strings percent-encoded):
       build                                         -> ma=<0|1> n=<k> eps=<e1;e2;…|-> | err | dead
       req m=<method> url=<url>                      -> sel=<names|-> managed=<0|1|?>   (| no-build)
   L4  mode reload                                   -> ok        (lifetime: a sequence of policy reloads)
-      reload g=<0|1> eps=<M@url;M@url|->            -> ma=<0|1> n=<k> eps=<e1;e2;…|-> | err | err:manage
+      reload g=<0|1> eps=<M@url[@rflags@dflags];…|-> [now=1]  -> ma=<0|1> n=<k> eps=<e1;e2;…|-> | err | err:manage
+                                                       (now=1: unmanageImmediately, the fail-safe reverts)
       fail put=<k> del=<j>                          -> ok        (the admin server refuses the next k PUTs / j DELETEs)
       advance ms=<n>                                -> ok        (mock clock; due un-manage jobs fire)
       managed?                                      -> all=<0|1> n=<k> set=<e1;…|-> fma=<0|1> feps=<e1;…|->
@@ -51,6 +52,7 @@ def parseReloadEps (s : String) : Option (List Policy) :=
   if s == "-" then some [] else
   (s.splitOn ";").zipIdx.mapM fun (it, i) => match it.splitOn "@" with
     | [m, u] => some ⟨s!"p{i + 1}", pctDec m, pctDec u, [], [true]⟩
+    | [m, u, r, d] => some ⟨s!"p{i + 1}", pctDec m, pctDec u, parseFlags r, parseFlags d⟩
     | _ => none
 
 def fmtSet (es : List String) : String :=
@@ -102,7 +104,9 @@ def runStep (s : RunSt) (line : String) : RunSt × String :=
           let cfg := Cfg.policies pols (g == "1")
           let req : Reload.Req := ⟨manageAll cfg, (registered cfg).map ofChars⟩
           let ok := Reload.reloadOK s.rl req
-          ({ s with rl := Reload.reload s.rmode s.rl req }, if ok then fmtBuild cfg else "err:manage")
+          let rl' := if kv ws "now" == some "1" then Reload.reloadNow s.rmode s.rl req
+                     else Reload.reload s.rmode s.rl req
+          ({ s with rl := rl' }, if ok then fmtBuild cfg else "err:manage")
     | _, _ => (s, "bad-op")
   | "fail" :: ws =>
     match kvNat ws "put", kvNat ws "del" with
